@@ -29,6 +29,7 @@ var AllKnobs = []string{
 	"keyhop",             // an extension subgraph declares only the second key (needs multikeys)
 	// universe
 	"nulls", "errors",
+	"duplists", // longer lists of entities that reference the same entity several times (a,a,b,c,b), nulls in the middle
 	// operations
 	"aliases", "fragments", "inlinefragments", "typename", "variables", "skipinclude", "deep", "dupfields",
 }
@@ -380,6 +381,9 @@ func GenConfig(r *common.Rand, k Knobs) *Config {
 			nf := 1 + r.Pick(2)
 			for j := 0; j < nf; j++ {
 				fd := &FieldDef{Name: g.fname("if"), Type: g.scalarType()}
+				if k["interfacerequires"] && r.Chance(1, 2) {
+					fd.Type = Named("String")
+				}
 				if k["args"] && r.Chance(1, 5) {
 					fd = &FieldDef{Name: g.fname("ix"), Args: g.argDefs(), Type: Named("String")}
 				}
@@ -398,6 +402,32 @@ func GenConfig(r *common.Rand, k Knobs) *Config {
 							}
 						}
 					}
+				}
+			}
+			if k["interfaceobjects"] && r.Chance(2, 3) {
+				// an object field declared by the interface and owned, for every implementer, by the
+				// interface's home subgraph: the selection stays on the interface (no per-type rewrite)
+				var ents []*gType
+				for _, o := range g.objs {
+					if o.cat == catEntity {
+						ents = append(ents, o)
+					}
+				}
+				tr := Named(common.PickOf(r, ents).def.Name)
+				if k["lists"] && r.Chance(3, 4) {
+					if k["nonnull"] && r.Chance(1, 2) {
+						tr = NonNull(tr)
+					}
+					tr = ListOf(tr)
+				}
+				if k["nonnull"] && r.Chance(1, 3) {
+					tr = NonNull(tr)
+				}
+				fd := &FieldDef{Name: g.fname("io"), Type: tr}
+				idef.Fields = append(idef.Fields, fd)
+				for _, t := range impls {
+					t.def.Fields = append(t.def.Fields, fd)
+					t.owner[fd.Name] = []int{h}
 				}
 			}
 			for _, t := range impls {
@@ -652,6 +682,48 @@ func GenConfig(r *common.Rand, k Knobs) *Config {
 			}
 		}
 	}
+	if k["interfacerequires"] {
+		for _, a := range g.abs {
+			if a.def.Kind != KInterface {
+				continue
+			}
+			h := a.home
+			for _, tn := range super.PossibleTypes(a.def.Name) {
+				t := g.obj(tn)
+				if t == nil || t.cat != catEntity || len(t.subs) < 2 || !r.Chance(1, 2) {
+					continue
+				}
+				// the requiring field: a String interface field this implementer owns in h
+				var rf *FieldDef
+				for _, fd := range a.def.Fields {
+					ow := t.owner[fd.Name]
+					if fd.Type.Base() == "String" && !fd.Type.IsList() && len(fd.Args) == 0 && len(ow) == 1 && ow[0] == h &&
+						!g.isRequiresField(tn, fd.Name) && !g.isRequiresInput(tn, fd.Name) && !t.isKey[fd.Name] {
+						rf = fd
+						break
+					}
+				}
+				if rf == nil {
+					continue
+				}
+				var cands []string
+				for _, fd := range t.def.Fields {
+					ow := t.owner[fd.Name]
+					if len(fd.Args) == 0 && !t.isKey[fd.Name] && fd.Name != "sku" && len(ow) == 1 && ow[0] != h &&
+						super.IsLeaf(fd.Type.Base()) && !fd.Type.IsList() && !g.isExt(h, tn, fd.Name) && !g.isRequiresField(tn, fd.Name) &&
+						a.def.Field(fd.Name) == nil {
+						cands = append(cands, fd.Name)
+					}
+				}
+				if len(cands) == 0 {
+					continue
+				}
+				w := common.PickOf(r, cands)
+				g.requires[fmt.Sprintf("%d.%s.%s", h, tn, rf.Name)] = w
+				g.addExt(h, tn, w)
+			}
+		}
+	}
 	if k["provides"] {
 		type site struct {
 			owner *gType // nil = Query
@@ -704,6 +776,22 @@ func GenConfig(r *common.Rand, k Knobs) *Config {
 	g.assemble()
 	g.cfg.Lookups = g.lookups
 	return g.cfg
+}
+
+// isRequiresInput: field is named by the @requires selection of some field of typ.
+func (g *cfgGen) isRequiresInput(typ, field string) bool {
+	for k, sel := range g.requires {
+		p := strings.SplitN(k, ".", 3)
+		if p[1] != typ {
+			continue
+		}
+		for _, n := range strings.Fields(sel) {
+			if n == field {
+				return true
+			}
+		}
+	}
+	return false
 }
 
 func (g *cfgGen) isRequiresField(typ, field string) bool {
